@@ -58,6 +58,13 @@ class PayoutMonitor(Monitor):
         if type(op).__name__ == 'ChipsPushing' and self.live is None:
             self.live = list(state.statuses)
             self.hole = [list(h) for h in state.hole_cards]
+            # what a player has TABLED is what plays (a live player who keeps
+            # cards face down plays the board / his up cards only)
+            self.up = [[c for c, u in zip(h, st) if u] for h, st in zip(
+                state.hole_cards, state.hole_card_statuses)]
+            if any(self.live[i] and len(self.up[i]) < len(self.hole[i])
+                   for i in state.player_indices) and sum(self.live) > 1:
+                ctx.counters['showdowns_with_cards_kept_face_down'] += 1
 
     def on_end(self, ctx, state):
         if state.status or 'op_exc' in ctx.data:
@@ -68,7 +75,10 @@ class PayoutMonitor(Monitor):
         if any(not c for i, h in enumerate(hole) if live[i] for c in h):
             ctx.counters['skipped_unknown_cards'] += 1
             return
-        vs, pots, facts = payout.check(state, live, hole)
+        tabled = getattr(self, 'up', None)
+        if self.live is None or tabled is None:
+            tabled = hole
+        vs, pots, facts = payout.check(state, live, tabled)
         for x in vs[:4]:
             ctx.violate(x)
         if facts.get('nobody_live'):
@@ -124,6 +134,18 @@ def gen_kwargs(rng):
 
 
 def pol_tweak(pol, cfg, rng):
+    if rng.random() < 0.25:
+        # rigged deals: made-hand boards and hole cards from their
+        # neighbourhood (playing the board, counterfeits, exact ties)
+        pol['deal'] = 'rigged'
+        cfg['autos'] = [a for a in cfg['autos']
+                        if a not in ('HOLE_DEALING', 'BOARD_DEALING')]
+    if rng.random() < 0.15:
+        pol['partial_show'] = True      # cash games: some cards kept down
+        pol['empty_show'] = True
+        cfg['mode'] = 'CASH_GAME'
+        cfg['autos'] = [a for a in cfg['autos']
+                        if a != 'HOLE_CARDS_SHOWING_OR_MUCKING']
     if rng.random() < 0.4:
         pol['fork_p'] = 0.03     # continue on a deepcopy mid-hand
     pol['policy'] = rng.choice(['passive', 'passive', 'aggressive', 'allin',
